@@ -2,6 +2,15 @@ NOTES = ('Bounded-exhaustive model checking of the real implementation; see DESI
          'Known genuine defects are listed in known_findings.json.')
 NOT_APPLICABLE = {}
 CHECKS = {
+ 'C14': dict(engine='E3', design_ref='4/C14',
+    technique='exhaustive enumeration of description-transformation edges (cone(0)<->cylinder, cylinder(r=10^k)->plate, w-only<->w-block, numeric<->analytic kernels, x<->y exchange, similarity scaling) x laminate x flag base x orders x load triples, differential oracle between two real executions',
+    text='For every edge and configuration letter the two descriptions are evaluated through the public API and compared: matrices identical to rounding (cone at 0 deg vs cylinder, w-only vs w-block, numeric vs analytic at the undeformed state), '
+         'decay at least like 1/r towards the plate, identical frequency and buckling spectra under the axis exchange, and the e*s / sqrt(e/q)/s similarity laws.',
+    note='spectra edges only for restraint patterns that make K positive definite'),
+ 'C15': dict(engine='E3', design_ref='4/C15',
+    technique='exhaustive enumeration of all series orders (m,n) in a square range for every (laminate, aspect ratio, load ratio/frequency, restraint) letter; every lattice edge (m,n)->(m+1,n),(m,n+1) compared; closed-form double-sine oracle',
+    text='None of the lowest five buckling multipliers / squared frequencies may rise along any edge of the (m,n) lattice; for SSSS specially orthotropic plates every k-th value is bounded below by the k-th closed-form value and the lowest converges to it.',
+    note='quick: orders 4..10, thorough: 4..16; monotonicity tolerance 1e-7 relative (dense eigen-solver noise floor 2e-9)'),
  'C05': dict(engine='E3', design_ref='4/C05',
     technique='exhaustive enumeration (full product size x stiffness spectrum x geometric-matrix letter x eigenbasis x null-row pattern x requested number x solver switch) of constructed symmetric pairs with exactly known multipliers, plus package (k0,kG0) pairs, through the real compmech.analysis.lb and Panel.lb',
     text='Every returned pair must satisfy (K + lambda KG) v = 0 to 1e-6 of the matrix scale with zeros on amplitudes without stiffness; for sub-critical destabilising reference loads the values must be ascending and equal the smallest positive exact multipliers d_i/g_i; '
